@@ -60,6 +60,14 @@ def run(an: Analysis, rep):
     rep.run(c09.unreferenced_rules, an, sht)
     rep.run(c08.r082, an, sht)
     rep.run(ordering_rule, an, rep, "R14.5", ["iter", "all_code_data"])
+    rep.run(c08.r083, an, SharedRules(rep, "R14.S", "everything the decoder stores in the data is hashable (shared with C08's R08.3): nested code objects are table entries, the decoder of the enclosing "
+                                                    "code object hashes them - a list left in a field of a nested CodeData makes from_code of the parent raise"))
+    from rules import c04 as _c04w, c02 as _c02r
+    from rules.common import rejection_paths_rule
+    rep.run(_c04w.r04f, an, SharedRules(rep, "R14.W", "the decoder's header logic folded over witness code objects of every kind of scope (shared with C04's R04.W): a nested scope the decoder refuses "
+                                                      "(a class body that reads a local of the enclosing function) makes from_code of everything around it raise"))
+    rep.run(rejection_paths_rule, an, SharedRules(rep, "R14.R", "every place where from_code can stop with an exception is one confirmed by reading (shared with C02's R02.R)"), "R02.R", ["from_code"],
+            _c02r.DECODER_REJECTIONS, "from_code")
     rep.run(decoded_placement_rule, an, rep)
     rep.run(r14f, an, rep)
     tg = an.tg
